@@ -71,6 +71,12 @@ Alias == /\ IsEvent("alias")
          /\ Ev.obs.head = st.head /\ Ev.obs.dirty = st.dirty /\ Ev.obs.other = st.other
          /\ st' = Obs(st.version, st.n)
 
+\* a branch / remote-tracking ref named like a tag: no tag, HEAD commit, work tree changes; "everything else" does
+Branch == /\ IsEvent("branch")
+          /\ SameTags(Ev.obs.tags, st.tags) /\ Ev.obs.head = st.head /\ Ev.obs.dirty = st.dirty
+          /\ Ev.obs.other # st.other
+          /\ st' = Obs(st.version, st.n)
+
 Touch == /\ IsEvent("touch")
          /\ st.dirty = "clean" /\ Ev.obs.dirty = Ev.kind
          /\ SameTags(Ev.obs.tags, st.tags) /\ Ev.obs.head = st.head
@@ -89,7 +95,7 @@ Run == /\ IsEvent("run")
        /\ RunContract(st, Ev.flag, Obs(st.version, st.n), Ev.exit)
        /\ st' = Obs(st.version, st.n)
 
-TraceNext == Reset \/ Commit \/ Checkout \/ UserTag \/ Alias \/ Touch \/ Bump \/ Run
+TraceNext == Reset \/ Commit \/ Checkout \/ UserTag \/ Alias \/ Branch \/ Touch \/ Bump \/ Run
 
 TraceSpec == TraceInit /\ [][TraceNext]_tvars
 
